@@ -347,7 +347,7 @@ class Check:
 
     # ---- correspondence streams --------------------------------------------------------------
     def run_stream(self, name, cases, impl, line=None, canon=None, oracle=None, nontrivial=None,
-                   per_case_timeout=20.0, site=None, skip=None, model_out=None, describe=None):
+                   per_case_timeout=20.0, site=None, skip=None, model_map=None, describe=None):
         """cases: list of JSON-able dicts.  impl(case) -> result dict (with 'outcome').
         line(case) -> protocol line for the driver (None: stream has no model side).
         canon(case, result) -> the line the driver should print.  oracle(case, result) -> None or
@@ -367,6 +367,8 @@ class Check:
         outs = None
         if line is not None:
             outs = run_driver([line(cases[i]) for i in keep])
+            if model_map:  # post-processing of the model's line that depends on the case
+                outs = [model_map(cases[i], o) for i, o in zip(keep, outs)]
         disagreements = []
         for j, i in enumerate(keep):
             c, r = cases[i], results[i]
